@@ -501,6 +501,20 @@ prop("C20",
 PROPS["C03"]["quick"].append({"engine": "Z", "prop": "C03"})
 PROPS["C03"]["thorough"].append({"engine": "Z", "prop": "C03", "zoo_tier": "thorough"})
 META["C03"]["engine"] = "S+L+Z"
+# concurrent registration on the real lock-free entry list (engine L)
+def entrylist_scenarios(tier):
+    out = [{"kind": "entrylist", "pushes": p, "pb": None} for p in ([1, 1], [2, 1], [1, 2], [2, 2], [1, 1, 1])]
+    if tier == "thorough":
+        out += [{"kind": "entrylist", "pushes": p, "pb": None} for p in ([3, 2], [2, 1, 1], [2, 2, 1])]
+        out.append({"kind": "entrylist", "pushes": [2, 2, 2], "pb": 3})
+        out.append({"kind": "entrylist", "pushes": [1, 1, 1, 1], "pb": 3})
+    return out
+
+
+PROPS["C12"]["quick"].append({"engine": "L", "prop": "C12", "scenarios": entrylist_scenarios("quick"), "timeout": 300})
+PROPS["C12"]["thorough"].append({"engine": "L", "prop": "C12", "scenarios": entrylist_scenarios("thorough"), "timeout": 900})
+META["C12"]["engine"] = "Z+S+L"
+PROPS["C12"]["assumptions"].append("engine L: `EntryList::push` (the list behind BENCH_ENTRIES / GROUP_ENTRIES, documented as thread-safe although constructors run single-threaded) under loom: 2-3 threads pushing 1-2 nodes each, every interleaving and every spurious compare_exchange_weak failure loom generates; every node must be found exactly once afterwards")
 PROPS["C18"]["quick"].append({"engine": "Z", "prop": "C18"})
 PROPS["C18"]["thorough"].append({"engine": "Z", "prop": "C18", "zoo_tier": "thorough"})
 META["C18"]["engine"] = "S+Z"
